@@ -1,6 +1,6 @@
 (* Correspondence for C13 (uamiv): Memmap reader vs record reader on the same reference-encoded file,
    plus the translated seek arithmetic against the offsets at which the library actually seeks. *)
-From PNC Require Export Base.Util Base.Words Gen.Camx Model.Uamiv Proofs.CamxReadProofs.
+From PNC Require Export Base.Util Base.Words Gen.Camx Model.Uamiv.
 From PNC Require Import Corr.C09.
 Local Open Scope Z_scope.
 
